@@ -1,9 +1,9 @@
 (* C20 — Component container: ordered start, reverse-ordered stop, no use-before-init.
    This file contains only property theorems (closed by [exact]), their non-vacuity examples and
-   [Print Assumptions].  Model: Model/App.v; proofs: Proofs/AppProofs.v. *)
+   [Print Assumptions].  Model: Model/App.v; proofs: Proofs/AppProofs.v, Proofs/AppLife.v. *)
 From Coq Require Import List NArith Bool Arith.
 Import ListNotations.
-From AnySync Require Import Model.App Proofs.AppProofs.
+From AnySync Require Import Model.App Proofs.AppProofs Proofs.AppLife.
 
 (* The loops of App.Start / App.Close / App.Component compute exactly the declarative specification. *)
 Theorem c20_start_is_spec : forall cs, start cs = spec_start cs.
@@ -113,6 +113,41 @@ Theorem c20_model_meets_spec_lookup_history : forall depth ops,
 Proof. exact model_meets_spec_lops. Qed.
 Print Assumptions c20_model_meets_spec_lookup_history.
 
+(* ---- lifecycle histories: Register / Start / Close in any order on one container, and registrations attempted
+   by another goroutine while a Start is executing ---- *)
+
+(* the discipline "no use before init" on the log of every Start, for every component list *)
+Theorem c20_start_ordered : forall cs, ordered (fst (start cs)) = true.
+Proof. exact ordered_start. Qed.
+Print Assumptions c20_start_ordered.
+
+(* ... and what the discipline means: a Run of i is preceded by the Init of i, and no Init follows any Run *)
+Theorem c20_ordered_means : forall ev pre i post,
+  ordered ev = true -> ev = pre ++ ERun i :: post ->
+  In (EInit i) pre /\ (forall j, ~ In (EInit j) post).
+Proof. exact ordered_sound. Qed.
+Print Assumptions c20_ordered_means.
+
+(* a Start only ever touches components registered before it began *)
+Theorem c20_start_touches_registered_only : forall cs e, In e (fst (start cs)) -> (event_idx e < length cs)%nat.
+Proof. exact start_events_registered. Qed.
+Print Assumptions c20_start_touches_registered_only.
+
+(* a registration attempted while Start executes is inert for that Start (not initialised, not run, not closed by
+   its rollback) and the rest of the history continues from the list it leaves *)
+Theorem c20_late_registration_inert : forall cs late ops ev res rest,
+  run_hops cs (HStart late :: ops) = (ev, res) :: rest ->
+  (ev, res) = (fst (start cs), HRStart (snd (start cs))) /\
+  (forall e, In e ev -> (event_idx e < length cs)%nat) /\
+  rest = run_hops (after_start cs ev late) ops.
+Proof. exact late_registration_inert. Qed.
+Print Assumptions c20_late_registration_inert.
+
+(* every lifecycle history of the model satisfies the predicate applied to the implementation's logs *)
+Theorem c20_model_meets_spec_lifecycle : forall ops cs, spec_C20_hops cs ops (run_hops cs ops) = true.
+Proof. exact model_meets_spec_hops. Qed.
+Print Assumptions c20_model_meets_spec_lifecycle.
+
 (* ---- non-vacuity: concrete component lists meeting the hypotheses ---- *)
 Definition cR := mkComp 1 0 true false false false.   (* runnable *)
 Definition cP := mkComp 2 0 false false false false.  (* plain *)
@@ -143,4 +178,16 @@ Proof. vm_compute. auto. Qed.
 Example c20_nonvacuous_lookup_history :
   run_lops [[]; []] [LReg 1 cP; LLook 0 false 2; LReg 0 (mkComp 2 0 true false false false); LLook 0 false 2; LLook 1 false 2]
   = [Some (1, 0); Some (0, 0); Some (1, 0)]%nat.
+Proof. vm_compute. reflexivity. Qed.
+
+(* second component's Init triggers a registration from another goroutine: it lands after Start, is neither
+   initialised nor run by it, and is closed (first) by the later Close *)
+Example c20_nonvacuous_lifecycle :
+  run_hops [] [HReg cR; HReg cP; HStart (Some (PInit, 1%nat, cR)); HClose]
+  = [([], HRReg); ([], HRReg); ([EInit 0; EInit 1; ERun 0], HRStart StartOk); ([EClose 2; EClose 0], HRClose [])]%nat.
+Proof. vm_compute. reflexivity. Qed.
+
+(* a log in which the late component is run without having been initialised violates the predicate *)
+Example c20_lifecycle_spec_rejects_run_before_init :
+  spec_C20_start_late [cR; cP] ([EInit 0; EInit 1; ERun 0; ERun 2]%nat, StartOk) = false.
 Proof. vm_compute. reflexivity. Qed.
